@@ -56,6 +56,7 @@ type judgement struct {
 	maxStates   int
 	modelEvents int
 	overflow    bool
+	undecided   []string // liveness clauses the log ends too early to decide (watchdog fired first)
 }
 
 func (j *judgement) add(key, what string, at int, detail interface{}) {
@@ -524,6 +525,10 @@ func judge(h *Header, evs []Ev) *judgement {
 		j.outcome = "log ends (child died)"
 	}
 
+	if h.Scenario.Liveness {
+		j.liveness(h, evs, arr, peerOf, syncRet, cut)
+	}
+
 	// ---------- chunk queue model ----------
 	m := &model{h: h, evs: evs, arr: arr, peerOf: peerOf, offerRejects: offerRejects}
 	m.prepass()
@@ -735,4 +740,163 @@ func concurrentSource(arr map[int]*arrival, concurrent map[int]bool, e *Ev) *arr
 		}
 	}
 	return nil
+}
+
+// refetchTickBound: a refetched chunk must be requested again before another fetcher, which re-requests a
+// withheld chunk every ChunkRequestTimeout (250 ms in this family), has done so this many times
+// (32 x 250 ms = four of the fetchers' 2 s poll intervals).  Both clocks are timers of the same process.
+const refetchTickBound = 32
+
+// liveness decides "refetch and retry requests are honoured" for the refetch family: after an
+// ACCEPT / RETRY verdict with refetch_chunks and / or reject_senders, given when every chunk index has
+// been requested once and honest peers stay connected, every discarded chunk is requested again from a
+// peer that is not rejected, and the restore completes with the verified state.
+func (j *judgement) liveness(h *Header, evs []Ev, arr map[int]*arrival, peerOf func(string) int, syncRet, cut *Ev) {
+	if len(h.Scenario.Catalog) == 0 {
+		return
+	}
+	m := h.Scenario.Catalog[0]
+	canary := uint32(1 << 31)
+	if h.Scenario.Canary {
+		canary = m.Chunks - 1
+	}
+	held := map[uint32]int{}     // index -> peer whose chunk the queue holds
+	applied := map[uint32]bool{} // index currently applied
+	rejected := map[int]int{}    // peer -> event of rejection
+	type want struct {
+		idx  uint32
+		at   int // event of the verdict
+		why  string
+		done bool
+	}
+	var wants []*want
+	ackPeer := map[int]*arrival{}
+	for id, a := range arr {
+		ackPeer[id] = a
+	}
+	verdicts := 0
+	for k := range evs {
+		e := &evs[k]
+		switch e.K {
+		case "chunk-ack":
+			a := ackPeer[e.A]
+			if a == nil || a.miss || a.h != m.Height || a.f != m.Format || a.i >= m.Chunks {
+				break
+			}
+			if _, rej := rejected[a.peer]; rej {
+				break
+			}
+			if _, ok := held[a.i]; !ok {
+				held[a.i] = a.peer
+			}
+		case "apply-call":
+			applied[e.I] = true
+		case "apply-ret":
+			if e.M != "ACCEPT" && e.M != "RETRY" {
+				break
+			}
+			if len(e.Refetch) > 0 || len(e.Reject) > 0 {
+				verdicts++
+			}
+			for _, idx := range e.Refetch {
+				if _, ok := held[idx]; ok {
+					delete(held, idx)
+					delete(applied, idx)
+					wants = append(wants, &want{idx: idx, at: e.N, why: "refetch_chunks"})
+				}
+			}
+			for _, sid := range e.Reject {
+				p := peerOf(sid)
+				if p < 0 {
+					continue
+				}
+				rejected[p] = e.N
+				for idx, hp := range held {
+					if hp == p && !applied[idx] {
+						delete(held, idx)
+						wants = append(wants, &want{idx: idx, at: e.N, why: "reject_senders (unapplied chunk of the rejected sender)"})
+					}
+				}
+			}
+			if e.M == "RETRY" {
+				delete(applied, e.I)
+			}
+		case "req-chunk":
+			if e.H != m.Height || e.F != m.Format {
+				break
+			}
+			for _, w := range wants {
+				if w.done || w.idx != e.I || e.N < w.at {
+					continue
+				}
+				if at, rej := rejected[e.P]; rej && at <= e.N {
+					continue // asked a rejected peer: does not count
+				}
+				ticks := 0
+				for _, x := range evs {
+					if x.K == "req-chunk" && x.N > w.at && x.N < e.N && x.I == canary && x.H == m.Height && x.F == m.Format {
+						ticks++
+					}
+				}
+				w.done = true
+				if ticks > refetchTickBound {
+					j.add("refetch-after-full-allocation-never-requested",
+						fmt.Sprintf("chunk %d, discarded through %s at event %d when every chunk index had been requested, was requested again only after another fetcher had re-requested its outstanding chunk %d times (bound %d, i.e. four poll intervals)", w.idx, w.why, w.at, ticks, refetchTickBound), e.N, e)
+				} else {
+					j.counts["discarded chunk requested again from a non-rejected peer"]++
+					if int64(ticks) > j.counts["max canary ticks before a refetched chunk was requested again"] {
+						j.counts["max canary ticks before a refetched chunk was requested again"] = int64(ticks)
+					}
+				}
+			}
+		}
+	}
+	if verdicts > 0 {
+		j.counts["refetch / reject-sender verdict (ACCEPT or RETRY) given after every chunk index had been requested"] += int64(verdicts)
+	}
+	last := 0
+	if len(evs) > 0 {
+		last = evs[len(evs)-1].N
+	}
+	for _, w := range wants {
+		if w.done {
+			continue
+		}
+		ticks := 0
+		for _, x := range evs {
+			if x.K == "req-chunk" && x.N > w.at && x.I == canary && x.H == m.Height && x.F == m.Format {
+				ticks++
+			}
+		}
+		if ticks > refetchTickBound {
+			j.add("refetch-after-full-allocation-never-requested",
+				fmt.Sprintf("chunk %d, discarded through %s at event %d when every chunk index had been requested, was not requested again although another fetcher re-requested its outstanding chunk %d times meanwhile (bound %d, i.e. four poll intervals); honest peers were connected", w.idx, w.why, w.at, ticks, refetchTickBound), last, nil)
+		} else {
+			j.undecided = append(j.undecided, "refetched chunk not requested again before the scenario was cut (no logical clock: no withheld chunk in this scenario)")
+		}
+	}
+	// the restore completes
+	good := false
+	for p := range h.PeerIDs {
+		if _, rej := rejected[p]; !rej {
+			good = true
+		}
+	}
+	switch {
+	case syncRet != nil && syncRet.OK:
+		j.counts["restore completed with the verified state after the refetch"]++
+	case syncRet != nil && good:
+		j.add("restore-abandoned-although-good-peer-available",
+			fmt.Sprintf("Sync ended with %q although the app never rejected the snapshot and an honest, non-rejected peer serving it stayed connected", syncRet.M), syncRet.N, syncRet)
+	case cut != nil && len(j.undecided) == 0:
+		already := false
+		for _, f := range j.findings {
+			if f.Key == "refetch-after-full-allocation-never-requested" {
+				already = true
+			}
+		}
+		if !already {
+			j.undecided = append(j.undecided, "restore neither completed nor failed before the watchdog ("+cut.M+")")
+		}
+	}
 }
